@@ -67,7 +67,10 @@ Definition c_stats (c : cache) : N * N :=
   (N.of_nat (length (c_items c)),
    fold_right (fun p acc => N.of_nat (length (e_trg (snd p))) + acc) 0 (c_items c)).
 
-(* ---------- wire format: tcp_operation_header = 10 little-endian 32-bit words (40 bytes) ---------- *)
+(* ---------- wire format: tcp_operation_header = 10 little-endian 32-bit words (40 bytes) ----------
+   Length fields and generations are unbounded N in the model (uint32 / uint64 in the code, assumed not to
+   overflow); the one place where the code's uint32 arithmetic matters for acceptance - the length sum
+   check of the store request - keeps its wrap explicitly. *)
 Definition le32 (v : N) : bytes :=
   [v mod 256; (v / 256) mod 256; (v / 65536) mod 256; (v / 16777216) mod 256].
 Definition de32 (a b c d : N) : N := a + 256 * b + 65536 * c + 16777216 * d.
@@ -103,7 +106,7 @@ Definition z64_lo (z : Z) : N := Z.to_N (z mod 4294967296).
 Definition z64_hi (z : Z) : N := Z.to_N ((z / 4294967296) mod 4294967296).
 Definition z64_of (lo hi : N) : Z :=
   let u := (Z.of_N lo + 4294967296 * Z.of_N hi)%Z in
-  if (u <? 9223372036854775808)%Z then u else (u - 18446744073709551616)%Z.
+  ((u + 9223372036854775808) mod 18446744073709551616 - 9223372036854775808)%Z.
 
 (* opcodes (private/tcp_cache_protocol.h) *)
 Definition op_fetch := 0. Definition op_rise := 1. Definition op_clear := 2. Definition op_store := 3.
@@ -116,17 +119,16 @@ Definition enc_trigs (t : list bytes) : bytes := flat_map (fun x => x ++ [0]) t.
 (* ---- client side encoder (src/tcp_cache_client.cpp) ---- *)
 Definition enc_fetch (key : bytes) (cur_gen : N) (want_trg tif : bool) : hdr * bytes :=
   let g := if tif then cur_gen else 0 in
-  (mkH op_fetch (lenN key mod W32) 0 0 (g mod W32) ((g / W32) mod W32) (lenN key mod W32)
+  (mkH op_fetch (lenN key) 0 0 (g mod W32) (g / W32) (lenN key)
        ((if want_trg then 1 else 0) + (if tif then 2 else 0)) 0 0, key).
 Definition enc_rise (t : bytes) : hdr * bytes :=
-  (mkH op_rise (lenN t mod W32) 0 0 (lenN t mod W32) 0 0 0 0 0, t).
+  (mkH op_rise (lenN t) 0 0 (lenN t) 0 0 0 0 0, t).
 Definition enc_clear : hdr * bytes := (hdr0 op_clear, []).
 Definition enc_stats : hdr * bytes := (hdr0 op_stats, []).
 Definition enc_store (k v : bytes) (trg : list bytes) (dl : Z) : hdr * bytes :=
   let t := enc_trigs trg in
   let data := k ++ v ++ t in
-  (mkH op_store (lenN data mod W32) 0 0 (z64_lo dl) (z64_hi dl) (lenN k mod W32) (lenN v mod W32)
-       (lenN t mod W32) 0, data).
+  (mkH op_store (lenN data) 0 0 (z64_lo dl) (z64_hi dl) (lenN k) (lenN v) (lenN t) 0, data).
 
 (* ---- server side (src/tcp_cache_server.cpp: session::on_data_in, fetch, rise, clear, stats, store) ---- *)
 (* load_triggers: NUL-terminated names, an empty name is refused; a last name without NUL is taken up to
@@ -150,12 +152,12 @@ Definition srv_fetch (now : Z) (h : hdr) (p : bytes) (c : cache) : hdr * bytes :
   match c_fetch now p c with
   | None => (hdr0 op_no_data, [])
   | Some e =>
-      if tif && (e_gen e mod W64 =? cur_gen) then (hdr0 op_uptodate, [])
+      if tif && (e_gen e =? cur_gen) then (hdr0 op_uptodate, [])
       else
         let t := if want_trg then enc_trigs (e_trg e) else [] in
         let out := e_val e ++ t in
-        (mkH op_data (lenN out mod W32) 0 0 (e_gen e mod W32) ((e_gen e / W32) mod W32)
-             (z64_lo (e_dl e)) (z64_hi (e_dl e)) (lenN (e_val e) mod W32) (lenN t mod W32), out)
+        (mkH op_data (lenN out) 0 0 (e_gen e mod W32) (e_gen e / W32)
+             (z64_lo (e_dl e)) (z64_hi (e_dl e)) (lenN (e_val e)) (lenN t), out)
   end.
 
 Definition srv_store (h : hdr) (p : bytes) (c : cache) : hdr * bytes * cache :=
@@ -204,8 +206,10 @@ Definition dec_fetch (tif : bool) (want_trg : bool) (h : hdr) (p : bytes) : fetc
 
 (* ---------- tcp_connector::hash ---------- *)
 Definition hash_step (h c : N) : N :=
-  let high := N.land h 4160749568 in            (* 0xf8000000 *)
-  N.lxor (N.lxor ((h * 32) mod W32) (high / 134217728)) c.   (* h<<=5; h^=high>>27; h^=c *)
+  let high := N.land h 4160749568 in                          (* highorder = h & 0xf8000000 *)
+  let h1 := N.shiftl h 5 mod W32 in                           (* h<<=5 *)
+  let h2 := N.lxor h1 (N.shiftr high 27) mod W32 in           (* h^=highorder>>27 *)
+  N.lxor h2 (c mod 256) mod W32.                              (* h^=c *)
 Definition hash_raw (key : bytes) : N := fold_left hash_step key 0.
 Definition server_of (n : nat) (key : bytes) : nat :=
   if Nat.eqb n 1 then 0%nat else N.to_nat (hash_raw key mod N.of_nat n).
